@@ -6,6 +6,7 @@ import (
 	"encoding/binary"
 	"fmt"
 	"regexp"
+	"strings"
 	"sync/atomic"
 	"time"
 
@@ -122,7 +123,16 @@ func x509Key(i int) x509.PrivateKey {
 }
 
 var StackKinds = []string{"vswarm", "wlswarm", "multiswarm", "mux-string", "mux-varint", "mux-u16", "mux-u32", "mux-u64",
-	"quicswarm", "sshswarm", "mbapp", "mbapp-loop", "mbapp-mem"}
+	"quicswarm", "sshswarm", "mbapp", "mbapp-w1", "mbapp-loop", "mbapp-mem", "mbapp-mem-w1"}
+
+// mbWorkers: "-w1" stacks run every mbapp node with one receive worker (all datagrams of a node
+// pass through one receive buffer), the others with four
+func mbWorkers(kind string) int {
+	if strings.HasSuffix(kind, "-w1") {
+		return 1
+	}
+	return 4
+}
 
 // mbapp parameters: the inner datagram MTU leaves 64 payload bytes per fragment
 const (
@@ -254,7 +264,7 @@ func NewStack(kind string, na, ns, uniq int) (*Stack, error) {
 			}
 			st.cleanup = append(st.cleanup, func() { sw.Close() })
 		}
-	case "mbapp", "mbapp-loop":
+	case "mbapp", "mbapp-w1", "mbapp-loop":
 		st.Mode = "mbapp"
 		net := netsim.NewNet(mbInnerMTU)
 		net.Loop = kind == "mbapp-loop"
@@ -262,7 +272,7 @@ func NewStack(kind string, na, ns, uniq int) (*Stack, error) {
 		st.Manual = !net.Loop
 		for i := 0; i < total; i++ {
 			sim := net.Node(i + 1)
-			sw := mbapp.New[netsim.Addr, string](sim.TellOnly(), mbMTU, mbapp.WithNumWorkers(4))
+			sw := mbapp.New[netsim.Addr, string](sim.TellOnly(), mbMTU, mbapp.WithNumWorkers(mbWorkers(kind)))
 			nd, err := mkNode[netsim.Addr](name(i), sw, ident)
 			if err := add(i, nd, err); err != nil {
 				return nil, err
@@ -275,11 +285,11 @@ func NewStack(kind string, na, ns, uniq int) (*Stack, error) {
 			}
 			st.cleanup = append(st.cleanup, func() { sw.Close() })
 		}
-	case "mbapp-mem":
+	case "mbapp-mem", "mbapp-mem-w1":
 		st.Mode = "mbapp"
 		r := memswarm.NewSecureRealm[struct{}](memswarm.WithQueueLen(256), memswarm.WithMTU(mbInnerMTU))
 		for i := 0; i < total; i++ {
-			sw := mbapp.New[memswarm.Addr, struct{}](r.NewSwarm(struct{}{}), mbMTU, mbapp.WithNumWorkers(4))
+			sw := mbapp.New[memswarm.Addr, struct{}](r.NewSwarm(struct{}{}), mbMTU, mbapp.WithNumWorkers(mbWorkers(kind)))
 			nd, err := mkNode[memswarm.Addr](name(i), sw, ident)
 			if err := add(i, nd, err); err != nil {
 				return nil, err
